@@ -225,13 +225,16 @@ func Read(r *bufio.Reader, l *log.Logger) (Message, error) {
 		switch subtype {
 		case 0:
 			var ext extensionInfo
-			lr := io.LimitReader(r, int64(length-2))
+			lr := &io.LimitedReader{R: r, N: int64(length - 2)}
 			decoder := bencode.NewDecoder(lr)
 			err = decoder.Decode(&ext)
 			if err != nil {
 				return nil, err
 			}
 			_, err = io.Copy(io.Discard, lr)
+			if err == nil && lr.N > 0 {
+				err = io.ErrUnexpectedEOF
+			}
 			if err != nil {
 				return nil, err
 			}
@@ -258,13 +261,16 @@ func Read(r *bufio.Reader, l *log.Logger) (Message, error) {
 			return m, nil
 		case ExtPex:
 			var info pexInfo
-			lr := io.LimitReader(r, int64(length-2))
+			lr := &io.LimitedReader{R: r, N: int64(length - 2)}
 			decoder := bencode.NewDecoder(lr)
 			err := decoder.Decode(&info)
 			if err != nil {
 				return nil, err
 			}
 			_, err = io.Copy(io.Discard, lr)
+			if err == nil && lr.N > 0 {
+				err = io.ErrUnexpectedEOF
+			}
 			if err != nil {
 				return nil, err
 			}
